@@ -2,6 +2,7 @@ import Generated.C05
 import Model.KN
 import Model.KNSpec
 import Proofs.KNStats
+import Proofs.KNAdjust
 /-!
 # C05 — lmplz computes interpolated modified Kneser-Ney estimates
 
@@ -75,6 +76,54 @@ theorem stats_eq_tree (cfg : Cfg) (N : Nat) (hN : 1 ≤ N) (full : List (Gram ×
     (i : Nat) (hi : i + 1 < N) :
     statsOf (adjustStream cfg full).adds.reverse i = countsOfCounts ((adjustStream cfg full).stream (i + 1)) :=
   stats_eq_stream cfg N hN full hfull (htree.trans flush_adjusted_tree) i hi
+
+/-! ## the streaming algorithm computes the set-based adjusted counts -/
+
+open KV.KN.Adjust in
+/-- **adjust_stream_eq**: for every strictly suffix-sorted table of order-`N` rows (`FullWF`: `N`
+words per row, the newest word never `<s>`/`<unk>`, `<s>` only as a run at the old end) the
+stream of every lower order written by `AdjustCounts::Run` — n-grams, adjusted counts, prune
+marks, in order — is the specification `Spec.ents`: keys = the valid suffixes, count =
+number of distinct left extensions (true count when the n-gram starts with `<s>`), mark =
+true count ≤ threshold or excluded word, special unigrams exempt. -/
+theorem adjust_stream_eq (cfg : Cfg) (full : List (Gram × Nat)) (h2 : 2 ≤ cfg.order)
+    (hw : FullWF cfg.order full) (hk : cfg.keepSpecials = true) (n : Nat) (h1 : 1 ≤ n)
+    (hn : n < cfg.order) : (adjustStream cfg full).stream n = Spec.ents cfg full n :=
+  KV.KN.Adjust.adjust_stream_eq cfg full h2 hw hk n h1 hn
+
+open KV.KN.Adjust in
+example : ∃ full, full ≠ [] ∧ FullWF 3 full := ⟨_, by simp, exFull_wf⟩
+
+open KV.KN.Adjust in
+/-- **prune_exact**: a lower-order record is marked for removal iff its *true* count is at or
+below the threshold of its order or it contains an excluded word (`Spec.pruned`; `<unk>`,
+`<s>`, `</s>` never) -/
+theorem prune_exact (cfg : Cfg) (full : List (Gram × Nat)) (h2 : 2 ≤ cfg.order)
+    (hw : FullWF cfg.order full) (hk : cfg.keepSpecials = true) (n : Nat) (h1 : 1 ≤ n)
+    (hn : n < cfg.order) :
+    ∀ e ∈ (adjustStream cfg full).stream n, e.marked = Spec.pruned cfg full e.gram :=
+  KV.KN.Adjust.prune_exact cfg full h2 hw hk n h1 hn
+
+/-- the highest order: `CollapseStream` keeps the rows without `<s>` in position 1 and marks by
+the row's own count — which is what `Spec.ents` says for `n = order` -/
+theorem prune_exact_top (cfg : Cfg) (full : List (Gram × Nat)) :
+    ∀ e ∈ collapse cfg full, e.marked = markOf cfg e.count e.gram := by
+  intro e he
+  unfold collapse at he
+  obtain ⟨x, _, rfl⟩ := List.mem_map.mp he
+  rfl
+
+open KV.KN.Adjust in
+/-- **stats_eq**: with the repaired flush the statistics of every lower order are the
+counts-of-counts of the *specification's* adjusted counts -/
+theorem stats_eq (cfg : Cfg) (full : List (Gram × Nat)) (h2 : 2 ≤ cfg.order)
+    (hw : FullWF cfg.order full) (hk : cfg.keepSpecials = true) (hfix : cfg.flushAdjusted = true)
+    (i : Nat) (hi : i + 1 < cfg.order) :
+    statsOf (adjustStream cfg full).adds.reverse i = countsOfCounts (Spec.ents cfg full (i + 1)) :=
+  KV.KN.Adjust.stats_eq cfg full h2 hw hk hfix i hi
+
+/-- `countsOfCounts` (a fold of `OrderStat.add`) is what `Spec.stats` counts -/
+theorem keep_specials_tree : KV.Gen.C05.keepSpecials = true := by decide
 
 /-! ## discounts -/
 
